@@ -26,7 +26,7 @@ ASSUMPTIONS = [
     "with trailing bytes after an RTU frame the served payload must be the prefix of response_data() (the library's "
     "trim keeps the trailing bytes; sensors address the payload by offset)",
 ]
-MUST = ["aa55_header_addresses", "typed_setting_write_echoes", "single_value_entry_points", "aa55_read_length_independent_of_count", "aa55_sum_ge_8000", "aa55_sum_ge_10000", "rtu_trailing", "end_to_end_success", "negative_write_echo", "overlapping_tcp_inverters", "same_object_sequences", "consecutive_slow_or_identical_answers", "requests_from_a_new_event_loop", "write_ack_payload_checked", "answer_from_another_comm_address",
+MUST = ["device_info_arbitrary_bytes", "aa55_header_addresses", "typed_setting_write_echoes", "single_value_entry_points", "aa55_read_length_independent_of_count", "aa55_sum_ge_8000", "aa55_sum_ge_10000", "rtu_trailing", "end_to_end_success", "negative_write_echo", "overlapping_tcp_inverters", "same_object_sequences", "consecutive_slow_or_identical_answers", "requests_from_a_new_event_loop", "write_ack_payload_checked", "answer_from_another_comm_address",
         "accepted_rtu", "accepted_tcp", "accepted_aa55"]
 EXHAUSTIVE = {"quick": False, "thorough": False}
 CLASSES = ["random", "ff", "00", "7f80", "fe", "aa55"]
@@ -367,6 +367,8 @@ def plan(tier, seed):
     for i in range(4 if tier == "quick" else 32):
         specs.append({"mode": "e2e", "seed": f"{seed}:C02:E:{i}", "n": 600 if tier == "quick" else 10000})
     specs.append({"mode": "overlap", "seed": f"{seed}:C02:O", "n": 60 if tier == "quick" else 3000, "typed": True})
+    for i in range(1 if tier == "quick" else 8):
+        specs.append({"mode": "info", "seed": f"{seed}:C02:I{i or ''}", "n": 0, "n_info": 150 if tier == "quick" else 3000})
     for i in range(1 if tier == "quick" else 16):
         specs.append({"mode": "sameobj", "seed": f"{seed}:C02:S{i or ''}", "n": 300 if tier == "quick" else 3000})
     return specs
@@ -409,11 +411,79 @@ def typed_writes(part):
         part.see(f"typed|{fam}|{port}")
 
 
+def device_info_payloads(spec, part):
+    """the identification answer is a conforming frame whatever its bytes are (any serial / model / version bytes, control characters, 0xFF runs,
+    byte pairs that are no valid UTF-16): read_device_info() of every family, over both Modbus framings and AA55, must take it - one transmission per
+    request, no exception out of the call"""
+    from .. import models
+    g = env.goodwe()
+    rnd = random.Random(spec["seed"] + ":info")
+    for i in range(spec.get("n_info", 60)):
+        fam = ("ET", "DT", "ES")[i % 3]
+        port = 8899 if fam == "ES" or rnd.random() < 0.6 else 502
+        sim = models.family_sim(fam)
+        style = rnd.choice(("random", "random", "ff", "zero", "ctrl", "wide"))
+        n = 66 if fam == "ET" else 80 if fam == "DT" else 64
+
+        def content(k):
+            if style == "random":
+                return bytes(rnd.randrange(256) for _ in range(k))
+            if style == "ff":
+                return b"\xff" * k
+            if style == "zero":
+                return bytes(k)
+            if style == "ctrl":     # text with control characters sprinkled in
+                return bytes(rnd.choice((rnd.randrange(32), rnd.randrange(48, 91), rnd.randrange(48, 91), 0x20, 0x7f)) for _ in range(k))
+            # 'wide': 16-bit code units, some of them surrogate halves (D800..DFFF) in any order, some zero high bytes
+            return b"".join(rnd.choice((bytes([0, rnd.randrange(32, 127)]), bytes([rnd.randrange(0xD8, 0xE0), rnd.randrange(256)]),
+                                        bytes([rnd.randrange(256), 0]))) for _ in range(k // 2 + 1))[:k]
+        blk = bytearray(content(n))
+        if rnd.random() < 0.5:
+            # ... or only one text field is unusual, the rest is what the simulated model sends
+            base = bytearray(n)
+            if fam == "ES":
+                base[:] = sim.info[:n].ljust(n, b"\x00")
+            else:
+                first = 35000 if fam == "ET" else 30001
+                for k in range(n // 2):
+                    base[2 * k:2 * k + 2] = (sim.regs.get(first + k, 0) & 0xFFFF).to_bytes(2, "big")
+            lo = rnd.randrange(0, n - 2)
+            hi = min(n, lo + rnd.choice((2, 10, 12, 16)))
+            base[lo:hi] = blk[lo:hi]
+            blk = base
+        if fam == "ES":
+            sim.info = bytes(blk)
+        else:
+            sim.set_bytes(35000 if fam == "ET" else 30001, bytes(blk))
+        out = {}
+
+        async def flow(loop):
+            inv = models.family_cls(g, fam)("inv0", port, 0, 1, 0)
+            try:
+                await inv.read_device_info()
+                out["how"] = "ok"
+            except Exception as e:      # noqa
+                out["how"] = f"{type(e).__name__}: {str(getattr(e, 'message', '') or e)[:80]}"
+        run = engine.run_custom({("inv0", port): sim}, flow, vtime_cap=600, tx_cap=600)
+        framing = "aa55" if fam == "ES" else "tcp" if port == 502 else "rtu"
+        part.evaluations += 1
+        part.see(f"info|{fam}|{port}|{style}")
+        case = {"info": True, "seed": spec["seed"], "i": i}
+        if run.stop or run.error is not None or out.get("how") != "ok":
+            part.violate(f"C02/{framing}/conforming-answer-not-delivered",
+                         f"{fam} port {port}: read_device_info() against an inverter whose identification block is {bytes(blk).hex()} ({style}) ended "
+                         f"{out.get('how') or run.stop or repr(run.error)[:100]}: every request was answered with a conforming frame", case)
+        else:
+            part.count("device_info_arbitrary_bytes")
+
+
 def run_shard(spec):
     part = Part()
     contracts.install_validator_contracts(contracts.Sink(part))
     if spec.get("typed"):
         typed_writes(part)
+    if spec.get("n_info"):
+        device_info_payloads(spec, part)
     if spec["mode"] == "direct":
         direct(spec, part)
     elif spec["mode"] == "overlap":
@@ -433,6 +503,9 @@ def replay(case):
     part = Part()
     if case.get("typed"):
         typed_writes(part)
+        return [{"key": v["key"], "msg": v["msg"]} for v in part.violations]
+    if case.get("info"):
+        device_info_payloads({"seed": case["seed"], "n_info": case["i"] + 1}, part)
         return [{"key": v["key"], "msg": v["msg"]} for v in part.violations]
     if case.get("sameobj"):
         same_object({"seed": case["seed"], "n": case["i"] + 1}, part)
